@@ -885,14 +885,18 @@ func (x *c11Run) serve() {
 	}()
 }
 
-// sentinel asks, from the driver itself at an idle point, for a name the guaranteed set
-// holds exactly; it attributes the loss of the working set to the phase in which it happened.
+// sentinel asks, from the driver itself at an idle point, for a name that the newest set
+// known to have been installed (guaranteed, or seen by a finished handshake) holds exactly; it attributes the loss of the working set to the phase in which it happened.
 func (x *c11Run) sentinel(wave string) {
-	if x.spun || x.cfg == nil || x.L < 0 {
+	base := x.L
+	if x.floor > base {
+		base = x.floor
+	}
+	if x.spun || x.cfg == nil || base < 0 {
 		return
 	}
 	name := ""
-	for _, c := range x.sets[x.L] {
+	for _, c := range x.sets[base] {
 		for _, n := range c.dnsNames() {
 			if !strings.HasPrefix(n, "*.") && name == "" {
 				name = n
@@ -1068,7 +1072,7 @@ func (x *c11Run) violation(op *c11Op, lo, guaranteed, hi int) {
 		if lo >= 0 && op.empty {
 			x.lost = true
 			if lastBad < 0 {
-				x.r.Fail("lastgood", "working-set-lost/without-bad-load", "%s: the store is empty although state %d was installed", window, lo)
+				x.r.Fail("lastgood", "working-set-lost/without-bad-load", "%s: the store is empty although state %d had been installed", window, lo)
 				return
 			}
 			x.r.Fail("lastgood", "working-set-lost/"+strings.Join(badKinds, "+"), "%s: after the unusable load(s) %v (newest: state %d) the listener serves no certificate although state %d was installed", window, badKinds, lastBad, lo)
@@ -1131,6 +1135,19 @@ func runC11(r *simcore.Run) {
 	}
 	d.Sim.FS = x
 	d.Sim.HTTPGet = x.httpGet
+	overlap := false
+	d.Invariant = func() {
+		if overlap || d.Sim.InFunc("cert", "getCertificate") == 0 {
+			return
+		}
+		// a handshake is inside getCertificate; is the update goroutine parked in the middle of a store update?
+		for _, ts := range d.Sim.TaskStates() {
+			if strings.Contains(ts, " parked ") && (strings.Contains(ts, "SetCertificates@") || strings.Contains(ts, "BuildNameToCertificate@")) {
+				overlap = true
+				r.Probe("handshake_inside_store_update")
+			}
+		}
+	}
 	x.net = simnet.New(r)
 	ln, err := x.net.Listen(c11Addr, simnet.ListenOpts{Auto: true})
 	if err != nil {
